@@ -576,6 +576,15 @@ func artefactsOf(md protoreflect.MessageDescriptor) []artefact {
 				f.Set(m)
 				return true
 			}})
+			if fd.MapKey().Kind() == protoreflect.StringKind {
+				// a nil value under keys whose length puts the entry at a length-prefix boundary (entry = key + 4 bytes)
+				for _, kl := range []int{122, 123, 124, 16377, 16378} {
+					kl := kl
+					out = append(out, artefact{fmt.Sprintf("map{key of %d bytes:nil}", kl), fd, func(p proto.Message) bool {
+						return enum.InjectNilKeyLen(p, int(fd.Number()), kl)
+					}})
+				}
+			}
 		case inOneof:
 			if isMsg {
 				out = append(out, artefact{"oneof-wrapper{nil-message}", fd, func(p proto.Message) bool {
